@@ -55,6 +55,25 @@ fn hop_eq<T: Serialize + DeserializeOwned + PartialEq + std::fmt::Debug>(x: &T, 
     y
 }
 
+/// The text form of a curve point or field element is a sequence of "<excess> <64 hex digits>" pairs; the excess is the
+/// arithmetic library's lazy-reduction counter at the moment of printing, not part of the value (it is reset by a trip
+/// through the binary form).  Keep the digits only.
+pub(crate) fn strip_excess(v: &Value) -> Value {
+    match v {
+        Value::String(t) => {
+            let toks: Vec<&str> = t.split(' ').collect();
+            let is_hex = |x: &str| x.len() == 64 && x.bytes().all(|b| b.is_ascii_hexdigit());
+            let is_small = |x: &str| !x.is_empty() && x.len() <= 3 && x.bytes().all(|b| b.is_ascii_digit());
+            if toks.len() >= 2 && toks.len() % 2 == 0 && toks.chunks(2).all(|c| is_small(c[0]) && is_hex(c[1])) {
+                Value::String(toks.chunks(2).map(|c| c[1]).collect::<Vec<_>>().join(" "))
+            } else { v.clone() }
+        }
+        Value::Array(a) => Value::Array(a.iter().map(strip_excess).collect()),
+        Value::Object(o) => Value::Object(o.iter().map(|(k, x)| (k.clone(), strip_excess(x))).collect()),
+        _ => v.clone(),
+    }
+}
+
 /// hop for types without a typed equality but with a deterministic `Debug` form (no hash maps inside): the printed object that
 /// arrives is the printed object that was sent (`Some(0)` is not `None`)
 fn hop_dbg<T: Serialize + DeserializeOwned + std::fmt::Debug>(x: &T, ty: &str, out: &mut Out, sig: &str) -> T {
@@ -932,6 +951,22 @@ pub fn c14(eng: &mut Engine, rng: &mut Rng, thorough: bool, out: &mut Out) -> Ca
                                     out.oracle_fail("conversion legacy -> W3C -> legacy changed an attribute's encoded value", &json!({"fam":"c14.convert","sig":"","attribute":n,"raw":v.raw,"encoded":v.encoded}), &json!(b.values.0.get(n).map(|x| x.encoded.clone())));
                                 }
                             }
+                            // the W3C form as the document a holder stores: the three spellings of the same proof set
+                            // (array of one as emitted, single object, AnonCreds proof beside a foreign one) convert back alike
+                            let doc = serde_json::to_value(&wc).unwrap();
+                            let anon = match &doc["proof"] { Value::Array(a) => a.first().cloned().unwrap_or(Value::Null), o => o.clone() };
+                            let foreign = json!({"type": "Ed25519Signature2020", "proofPurpose": "assertionMethod", "verificationMethod": "did:x:1#k", "proofValue": "z58"});
+                            for (spelling, proof) in [("as-emitted", doc["proof"].clone()), ("array-of-one", json!([anon])), ("single-object", anon.clone()), ("beside-foreign", json!([foreign, anon]))] {
+                                let mut dj = doc.clone();
+                                dj["proof"] = proof;
+                                let parsed: std::result::Result<W3CCredential, _> = serde_json::from_str(&dj.to_string());
+                                let ok = parsed.as_ref().ok().and_then(|p| credential_from_w3c(p).ok()).map(|l| strip_excess(&serde_json::to_value(&l).unwrap()));
+                                let bj = strip_excess(&bj);
+                                if ok.as_ref() != Some(&bj) {
+                                    out.oracle_fail("a W3C credential read from its document did not convert back to the same legacy credential", &json!({"fam":"c14.convert","sig":"","spelling":spelling,"values":values_json(&cred.values)}), &json!({"parsed": parsed.is_ok(), "converted": ok.is_some(), "differs": ok.as_ref().map(|o| bj.as_object().unwrap().keys().filter(|k| o[k.as_str()] != bj[k.as_str()]).map(|k| json!([k, o[k.as_str()], bj[k.as_str()]])).collect::<Vec<_>>())}));
+                                }
+                                out.count(&format!("c14:document-spelling:{spelling}"));
+                            }
                             // W3C -> legacy -> W3C
                             if let Ok(w2) = credential_to_w3c(b, &d.issuer, Some(version.clone())) {
                                 if subject_json(&w2.credential_subject) != subject_json(&wc.credential_subject) || serde_json::to_value(w2.get_credential_signature_proof().unwrap()).unwrap() != serde_json::to_value(wc.get_credential_signature_proof().unwrap()).unwrap() {
@@ -1026,16 +1061,35 @@ pub fn c14(eng: &mut Engine, rng: &mut Rng, thorough: bool, out: &mut Out) -> Ca
         let vals: Vec<(String, String)> = vec![("name".into(), "Alice".into()), ("age".into(), "25".into()), ("sex".into(), "F".into()), ("height".into(), "170".into())];
         if let Ok(mut wc) = w3c::issuer::create_credential(&d.cd, &d.cdp, &offer, &req, make_w3c_values(&vals), None, None) {
             if w3c::prover::process_credential(&mut wc, &meta, &eng.cast.holders[0], &d.cd, None).is_ok() {
-                if let Ok(lc) = credential_from_w3c(&wc) {
+                // as the live object, and as the document a wallet stored and read back
+                let stored: Option<W3CCredential> = serde_json::from_str(&serde_json::to_string(&wc).unwrap()).ok();
+                if stored.is_none() {
+                    out.oracle_fail("a processed W3C credential could not be read back from its own document", &json!({"fam":"c14.present","sig":"","route":"document"}), &Value::Null);
+                }
+                for (route, wc) in [("live", Some(wc.clone())), ("document", stored)] {
+                let Some(wc) = wc else { continue };
+                match credential_from_w3c(&wc) {
+                Err(e) => out.oracle_fail("a credential issued in W3C form could not be converted to legacy form", &json!({"fam":"c14.present","sig":"","route":route}), &json!(e.to_string())),
+                Ok(lc) => {
                     let pres_req: PresentationRequest = serde_json::from_value(json!({"nonce":"99","name":"r","version":"1.0","requested_attributes":{"a":{"name":"name"}},"requested_predicates":{"p":{"name":"age","p_type":">=","p_value":18}}})).unwrap();
                     let mut pc = PresentCredentials::default();
                     { let mut x = pc.add_credential(&lc, None, None); x.add_requested_attribute("a", true); x.add_requested_predicate("p"); }
                     let ok = prover::create_presentation(&pres_req, pc, None, &eng.cast.holders[0], &w.schemas(), &w.cred_defs()).ok()
                         .map(|p| matches!(verifier::verify_presentation(&p, &pres_req, &w.schemas(), &w.cred_defs(), None, None, None), Ok(true))).unwrap_or(false);
-                    out.count("c14:w3c-issued-presented-as-legacy");
+                    out.count(&format!("c14:w3c-issued-presented-as-legacy:{route}"));
                     if !ok {
-                        out.oracle_fail("a credential issued in W3C form and converted to legacy form does not present/verify", &json!({"fam":"c14.present","sig":""}), &Value::Null);
+                        out.oracle_fail("a credential issued in W3C form and converted to legacy form does not present/verify", &json!({"fam":"c14.present","sig":"","route":route}), &Value::Null);
                     }
+                    // and the W3C form itself presents in the W3C format
+                    let mut pc = PresentCredentials::default();
+                    { let mut x = pc.add_credential(&wc, None, None); x.add_requested_attribute("a", true); x.add_requested_predicate("p"); }
+                    let ok = w3c::prover::create_presentation(&pres_req, pc, &eng.cast.holders[0], &w.schemas(), &w.cred_defs(), None).ok()
+                        .map(|p| matches!(w3c::verifier::verify_presentation(&p, &pres_req, &w.schemas(), &w.cred_defs(), None, None, None), Ok(true))).unwrap_or(false);
+                    if !ok {
+                        out.oracle_fail("a credential issued in W3C form does not present/verify in the W3C format", &json!({"fam":"c14.present","sig":"","route":route}), &Value::Null);
+                    }
+                }
+                }
                 }
             }
         }
